@@ -8,6 +8,9 @@ from .mir import generic_path
 
 
 def cond_strings(ctx, conds):
+    """Canonical strings of control conditions:
+       discr(x) in [variants] ; eq(a, b) is [T|F] (operands sorted; `ne` folded) ; lt(a, b) / le(a, b) (always stated as true:
+       gt/ge and negated forms are rewritten) ; other predicates `name(args) is [..]`."""
     out = set()
     for c in conds:
         cd = c["cond"]
@@ -19,6 +22,18 @@ def cond_strings(ctx, conds):
             allowed = list(c["allowed"])
             if kind == "ne":
                 kind, allowed = "eq", [not x for x in allowed]
+            if kind in ("lt", "le", "gt", "ge") and len(ops) == 2 and len(allowed) == 1:
+                a, b = ops
+                truth = allowed[0]
+                if kind in ("gt", "ge"):
+                    a, b = b, a
+                    kind = {"gt": "lt", "ge": "le"}[kind]
+                if not truth:
+                    # not (a < b)  ==  b <= a ;  not (a <= b)  ==  b < a
+                    a, b = b, a
+                    kind = {"lt": "le", "le": "lt"}[kind]
+                out.add("%s(%s, %s)" % (kind, a, b))
+                continue
             if kind in ("eq", "equal"):
                 ops = sorted(ops)
             out.add("%s(%s) is %s" % (kind, ", ".join(ops), sorted(allowed)))
